@@ -163,6 +163,10 @@ func toCodeBasic(t types.BasicKind) *jen.Statement {
 		return jen.Float32()
 	case types.Float64:
 		return jen.Float64()
+	case types.Uintptr:
+		return jen.Uintptr()
+	case types.UnsafePointer:
+		return jen.Qual("unsafe", "Pointer")
 	default:
 		panic(fmt.Sprintf("unsupported type %d", t))
 	}
